@@ -85,7 +85,7 @@ def has_tuple_with_nonleaf(root):
              and any(not isinstance(c, gen.Leaf) for c in n.items) for n in gen.walk(root))
 
 
-def gen_pair(rng, acc, pos_fraction=0.15):
+def gen_pair(rng, acc, pos_fraction=0.15, exclude_edits=()):
   """Returns (old_root, new_root, edits, mode, old, new) or None."""
   use_pos = rng.random() < pos_fraction
   opts = gen.Opts(max_nodes=rng.choice([3, 6, 10]), max_depth=4, p_share=0.3, p_clone=0.1,
@@ -106,7 +106,7 @@ def gen_pair(rng, acc, pos_fraction=0.15):
   else:
     new_root, clone_map = dagedit.structural_clone(old_root)
     for _ in range(rng.randint(1, 4)):
-      kind = rng.choice(dagedit.EDIT_KINDS)
+      kind = rng.choice([k for k in dagedit.EDIT_KINDS if k not in exclude_edits])
       try:
         ok = dagedit.apply_edit(new_root, kind, rng, LEAVES)
       except Exception:  # pylint: disable=broad-except
